@@ -134,7 +134,7 @@ def run(ctx):
             res.oracle_failures.append({'key': 'accepts-malformed', 'what': 'a text with an EXPORTS clause out of place was accepted', 'input': inp})
         if isinstance(expect, tuple):
             if err != 'lexer' or impl.get('line') != expect[1]:
-                res.oracle_failures.append({'key': 'located-lexer-error', 'what': 'bad token on line %d reported as %r' % (expect[1], impl), 'input': inp})
+                res.oracle_failures.append({'key': 'located-lexer-error', 'what': 'bad token on line %d reported as %r' % (expect[1], impl), 'input': dict(inp, expect=['lexer', expect[1]])})
         reqs.append(pc.parse_request(ex, text))
         metas.append((kind, dialect, text, impl))
     if ctx.model is not None:
